@@ -3,7 +3,7 @@ from runner import Harness as H
 P = "c09::proofs::"
 IDS = "ids: bytes 0, 1 and 19 symbolic (rest zero), strictly ascending"
 hs = []
-for k in (0, 1, 2):
+for k in (0, 1):
     hs.append(H(P + "c09_fanout_%d" % k, tier="quick" if k <= 1 else "thorough", timeout=900 if k <= 1 else 3000, mem=10 if k <= 1 else 16, covers=2,
                 unwindset=[(r"index6encode6fanout\.0:", 258)],
                 desc="index::encode::fanout(): entry b == number of ids whose first byte <= b, for every b", inputs="%d %s; b symbolic" % (k, IDS), bound="table loop 258 (256 entries) via per-loop bound; all other loops 6"))
@@ -26,7 +26,7 @@ SPEC = {
     "harnesses": hs,
     "functions": ["gix_pack::index::access::{lookup,lookup_prefix} (the kernels behind index::File and multi_index::File lookups; via guarded forwarders)",
                   "gix_pack::index::encode::fanout", "gix_hash::Prefix::{new,cmp_oid}"],
-    "bounds": "index of <= 3 (4 thorough) ids with 3 symbolic bytes each; every query id of that shape; every prefix length 4..=40; fan-out table checked separately for <= 1 (2 thorough) ids",
+    "bounds": "index of <= 3 (4 thorough) ids with 3 symbolic bytes each; every query id of that shape; every prefix length 4..=40; fan-out table checked separately for <= 1 id (2 ids: > 15 min, not in a tier)",
     "outside": ["the on-disk layout: 64-bit offset table, CRC table, chunk layout of the multi-pack index, SHA-1 trailer (memory-mapped files)", "indices written by git", "more than 4 ids; ids differing only in bytes 2..=18"],
     "assumptions": ["the fan-out table handed to lookup is correct at the (at most two) slots the query's first byte selects and arbitrary elsewhere; c09_fanout_* shows the real fanout() produces those values"],
     "manifest": {
